@@ -418,14 +418,14 @@ func (fr *Frame) checkPost(vs []*SVal) {
 	}
 	x.curRets = vs
 	for i, cl := range c.Ensures {
-		t := fr.evalBool(cl.Expr, env)
-		fr.oblige("post", cl.label(i), t, cl.Src)
+		fr.oblige("post", cl.label(i), fr.evalPostClause(cl, env), cl.Src)
 	}
 	for i, cl := range c.Checks {
 		cenv := *env
 		cenv.at = fr.curBlock
 		cenv.freshUnknown = true
-		fr.oblige("post", "check:"+cl.label(i), fr.evalBool(cl.Expr, &cenv), cl.Src)
+		// (a check that no longer binds - it names a call that is gone - fails)
+		fr.oblige("post", "check:"+cl.label(i), fr.evalCheckClause(cl, &cenv), cl.Src)
 	}
 	x.curRets = nil
 	if c.HasModifies && !c.ModifiesAll {
@@ -477,6 +477,45 @@ func (fr *Frame) checkPost(vs []*SVal) {
 			fr.oblige("frame", n, cond, "modifies clause does not list "+n)
 		}
 	}
+}
+
+// evalPostClause evaluates an ensures clause at a return. A clause "A ==> B" whose consequent
+// names a local that does not exist yet at this return (an early exit) is replaced by the
+// stronger "!A": the return must then be one at which the antecedent is false.
+func (fr *Frame) evalPostClause(cl *Clause, env *SpecEnv) (cond string) {
+	if cl.Expr.Op != "==>" {
+		return fr.evalBool(cl.Expr, env)
+	}
+	mark := fr.x.em.Mark()
+	defer func() {
+		if r := recover(); r != nil {
+			sf, ok := r.(specFail)
+			if !ok || !strings.Contains(sf.msg, "unknown identifier") {
+				panic(r)
+			}
+			_ = mark
+			cond = sNot(fr.evalBool(cl.Expr.Args[0], env))
+		}
+	}()
+	return fr.evalBool(cl.Expr, env)
+}
+
+// evalCheckClause evaluates a check clause at a return. "A ==> B" whose consequent does not
+// bind at this return (it names a local or a call that does not exist on this path) becomes
+// the stronger "!A"; any other clause that does not bind fails.
+func (fr *Frame) evalCheckClause(cl *Clause, env *SpecEnv) (cond string) {
+	if cl.Expr.Op != "==>" {
+		return fr.evalGuard(cl, env)
+	}
+	defer func() {
+		if r := recover(); r != nil {
+			if _, ok := r.(specFail); !ok {
+				panic(r)
+			}
+			cond = fr.evalGuard(&Clause{Name: cl.Name, Label: cl.Label, Only: cl.Only, Expr: &Node{Op: "!", Args: []*Node{cl.Expr.Args[0]}}, Src: cl.Src}, env)
+		}
+	}()
+	return fr.evalBool(cl.Expr, env)
 }
 
 // modCell: for a modifies item, the single cell (ref / backing array / map) of each heap that
